@@ -484,4 +484,72 @@ theorem sub_tt_val {x p : TwoFloat} (hx : x.Valid) (hp : p.Valid) (hwx : x.WF) (
     unfold TwoFloat.V; ring
   rw [e]; exact key.2
 
+/-! ## 6. `f64 - TwoFloat`: value with a crude error bound -/
+
+/-- **`f64 - TwoFloat`, value level** -/
+theorem sub_ft_val {f : F64} {p : TwoFloat} (hf : f.is_finite = true) (hwf : f.WF) (hp : p.Valid) (hwp : p.WF)
+    (bf : |f.toInt| ≤ 2 ^ 2094) (bp : |p.hi.toInt| ≤ 2 ^ 2094) :
+    (arithmetic.impl_Sub_rTwoFloat_for_rf64.sub f p).Valid ∧
+    2 ^ 103 * |(arithmetic.impl_Sub_rTwoFloat_for_rf64.sub f p).V - (f.toInt - p.V)|
+      ≤ |f.toInt| + |p.hi.toInt| := by
+  rw [sub_ft_eq]
+  have hm : ((2 ^ 2097 : Nat) : Int) ≤ (maxFin : Int) := Int.ofNat_le.2 two_pow_2097_le_maxFin
+  push_cast at hm
+  have lp := two_pow_mul_abs_le_of_half_ulp hp.two_mul_abs_lo_le
+  have n1 := abs_nonneg f.toInt
+  have n2 := abs_nonneg p.hi.toInt
+  have n3 := abs_nonneg p.lo.toInt
+  obtain ⟨a1, a2⟩ := new_sub_words hf hp.1 hwf hwp.1 (by omega) (by omega)
+  have r1 := rel_err_rnI (f.toInt - p.hi.toInt)
+  have t1 : |f.toInt - p.hi.toInt| ≤ |f.toInt| + |p.hi.toInt| := by
+    have := abs_add_le f.toInt (-p.hi.toInt)
+    rwa [abs_neg, ← Int.sub_eq_add_neg] at this
+  have esl : |f.toInt - p.hi.toInt - rnI (f.toInt - p.hi.toInt)|
+      = |rnI (f.toInt - p.hi.toInt) - (f.toInt - p.hi.toInt)| := abs_sub_comm _ _
+  have t2 : |f.toInt - p.hi.toInt - rnI (f.toInt - p.hi.toInt) - p.lo.toInt|
+      ≤ |f.toInt - p.hi.toInt - rnI (f.toInt - p.hi.toInt)| + |p.lo.toInt| := by
+    have := abs_add_le (f.toInt - p.hi.toInt - rnI (f.toInt - p.hi.toInt)) (-p.lo.toInt)
+    rwa [abs_neg, ← Int.sub_eq_add_neg] at this
+  have t3 := abs_le_add_abs_sub (rnI (f.toInt - p.hi.toInt)) (f.toInt - p.hi.toInt)
+  have vv := a2.sub (IsVal.of_finite hp.2.1) (by omega)
+  have r2 := rel_err_rnI (f.toInt - p.hi.toInt - rnI (f.toInt - p.hi.toInt) - p.lo.toInt)
+  have t4 := abs_le_add_abs_sub (rnI (f.toInt - p.hi.toInt - rnI (f.toInt - p.hi.toInt) - p.lo.toInt))
+    (f.toInt - p.hi.toInt - rnI (f.toInt - p.hi.toInt) - p.lo.toInt)
+  have hov : rn53 ((TwoFloat.new_sub f p.hi).hi.toInt +
+      (F64.sub (TwoFloat.new_sub f p.hi).lo p.lo).toInt).natAbs ≤ maxFin := by
+    rw [a1.2, vv.2]
+    apply rn53_natAbs_le_maxFin
+    have := abs_add_le (rnI (f.toInt - p.hi.toInt))
+      (rnI (f.toInt - p.hi.toInt - rnI (f.toInt - p.hi.toInt) - p.lo.toInt))
+    omega
+  have R : (arithmetic.fast_two_sum (TwoFloat.new_sub f p.hi).hi
+        (F64.sub (TwoFloat.new_sub f p.hi).lo p.lo)).V
+      = (TwoFloat.new_sub f p.hi).hi.toInt + (F64.sub (TwoFloat.new_sub f p.hi).lo p.lo).toInt ∧
+      (arithmetic.fast_two_sum (TwoFloat.new_sub f p.hi).hi
+        (F64.sub (TwoFloat.new_sub f p.hi).lo p.lo)).Valid := by
+    by_cases hs0 : rnI (f.toInt - p.hi.toInt) = 0
+    · have := fast_two_sum_spec_of_dvd a1.1 vv.1 (new_sub_WF _ _).1 (sub_WF _ _)
+        (by rw [a1.2, hs0]; exact dvd_zero _) hov
+      exact ⟨this.2.1, this.2.2.1⟩
+    · have e1 : -p.hi.toInt + f.toInt = f.toInt - p.hi.toInt := by ring
+      have hs0' : rnI (-p.hi.toInt + f.toInt) ≠ 0 := by rwa [e1]
+      have hpre := dwplusfp_pre (l := -p.lo.toInt) hwp.1.repI.neg hwf.repI
+        (by rw [abs_neg, Int.natAbs_neg]; exact hp.two_mul_abs_lo_le) hs0'
+      rw [e1] at hpre
+      have e2 : -p.lo.toInt + (f.toInt - p.hi.toInt - rnI (f.toInt - p.hi.toInt))
+          = f.toInt - p.hi.toInt - rnI (f.toInt - p.hi.toInt) - p.lo.toInt := by ring
+      rw [e2] at hpre
+      have := fast_two_sum_spec a1.1 vv.1 (new_sub_WF _ _).1 (sub_WF _ _)
+        (by rw [a1.2, vv.2]; exact abs_rnI_le (repI_rnI _) hpre) hov
+      exact ⟨this.2.1, this.2.2.1⟩
+  refine ⟨R.2, ?_⟩
+  rw [R.1, a1.2, vv.2]
+  have e : rnI (f.toInt - p.hi.toInt) +
+      rnI (f.toInt - p.hi.toInt - rnI (f.toInt - p.hi.toInt) - p.lo.toInt) - (f.toInt - p.V)
+      = rnI (f.toInt - p.hi.toInt - rnI (f.toInt - p.hi.toInt) - p.lo.toInt)
+        - (f.toInt - p.hi.toInt - rnI (f.toInt - p.hi.toInt) - p.lo.toInt) := by
+    unfold TwoFloat.V; ring
+  rw [e]
+  omega
+
 end F64
